@@ -58,22 +58,18 @@ theorem pyAtomEq_symm (a b : Key) : pyAtomEq a b = pyAtomEq b a := by
   cases a <;> cases b <;> simp [pyAtomEq] <;>
     first | exact eq_comm | exact Bool.beq_comm | (rw [Bool.beq_comm])
 
-/-- trigger predicate: the code's atomic comparison and F&O's disagree on this pair -/
+/-- the code's atomic comparison and F&O's disagree on this pair (kept as a definition for the
+driver; `atomClash_false` shows it never holds) -/
 def atomClash (a b : Key) : Bool := pyAtomEq a b != atomDeepEqual a b
 
-/-- …only an integer against a double (Python compares exactly, F&O converts the integer to
-xs:double first — different only beyond 2^53) -/
-def atomClashShape : Key → Key → Bool
-  | .int _, .dbl _ _ | .dbl _ _, .int _ => true
-  | _, _ => false
-
-theorem atomClash_shape (a b : Key) (h : atomClash a b = true) : atomClashShape a b = true := by
+/-- **deep-equal on atoms**: the atomic branch of `deep_equal` is F&O's "`eq` or both NaN" for every
+pair of atomic values -/
+theorem pyAtomEq_eq_spec (a b : Key) : pyAtomEq a b = atomDeepEqual a b := by
   cases a <;> cases b <;>
-    simp_all [atomClash, atomClashShape, pyAtomEq, atomDeepEqual, toDbl, Key.eqRep, Bool.beq_eq_decide_eq] <;>
-    exact h eq_comm
+    simp [pyAtomEq, atomDeepEqual, toDbl, Key.eqRep, Bool.beq_eq_decide_eq] <;>
+    first | exact eq_comm | exact Bool.and_comm _ _
 
-theorem pyAtomEq_eq_spec_of_not_clash {a b : Key} (h : atomClash a b = false) :
-    pyAtomEq a b = atomDeepEqual a b := by
-  simpa [atomClash] using h
+theorem atomClash_false (a b : Key) : atomClash a b = false := by
+  simp [atomClash, pyAtomEq_eq_spec]
 
 end EPV.MapArray
